@@ -24,6 +24,7 @@ class Target(object):
     ref = None          # ref(cont) -> (outcome | REJ, request sizes) for ONE attempt on the bytes of cont
     base_calls = 1      # requests a run needs at least (composite selections)
     size = 0
+    notes = None        # list of texts logged as observations (facts outside the property, e.g. a primality verdict)
 
 
 def _ref_wrap(fn):
@@ -88,6 +89,104 @@ def _strong(variant):
     if variant == "bit":
         return lambda t: _Seam.make(t, _bypass)
     raise ValueError(variant)
+
+
+class _RangeSpy(object):
+    """While active, records the result of every IntegerBase.random_range call (behaviour unchanged).
+    Installed per run: NeedMore/Diverged leave through __exit__, which restores the classmethod."""
+    __slots__ = ("base", "orig", "seen")
+
+    def __enter__(self):
+        from Crypto.Math import _IntegerBase as IB
+        self.base = IB.IntegerBase
+        self.orig = self.base.__dict__["random_range"]
+        self.seen = seen = []
+        f = self.orig.__func__
+
+        def random_range(cls, **kw):
+            r = f(cls, **kw)
+            seen.append(int(r))
+            return r
+        self.base.random_range = classmethod(random_range)
+        return self
+
+    def __exit__(self, *a):
+        self.base.random_range = self.orig
+        return False
+
+
+class _NumberSpy(object):
+    """While active, records the results of Crypto.Util.number.<name> (looked up as a module global by its callers)."""
+    __slots__ = ("mod", "names", "orig", "seen")
+
+    def __init__(self, *names):
+        self.names = names
+
+    def __enter__(self):
+        from Crypto.Util import number
+        self.mod = number
+        self.orig = {}
+        self.seen = seen = []
+        for name in self.names:
+            f = self.orig[name] = getattr(number, name)
+            setattr(number, name, self._wrap(name, f, seen))
+        return self
+
+    @staticmethod
+    def _wrap(name, f, seen):
+        def spy(*a, **kw):
+            r = f(*a, **kw)
+            seen.append((name, tuple(int(x) for x in a if isinstance(x, int)), int(r)))
+            return r
+        return spy
+
+    def __exit__(self, *a):
+        for name, f in self.orig.items():
+            setattr(self.mod, name, f)
+        return False
+
+
+_PRIME_CACHE = {}
+
+
+def is_prime(n):
+    r = _PRIME_CACHE.get(n)
+    if r is None:
+        from ..ref import nt
+        r = _PRIME_CACHE[n] = bool(nt.is_prime(n))
+    return r
+
+
+def spp(n, base):
+    from ..ref import nt
+    return int(bool(nt.strong_probable_prime(n, base)))
+
+
+# tiny RSA key (two 64-bit primes, k = 16 bytes) for the PKCS#1 v1.5 padding-octet trees
+PS15_P = (1 << 63) + 12451
+PS15_Q = (1 << 63) + 100000049
+_PS15 = {}
+
+
+def ps15_key():
+    if not _PS15:
+        from Crypto.PublicKey import RSA
+        from ..ref import nt
+        p, q = nt.next_prime(PS15_P), nt.next_prime(PS15_Q)
+        n, e = p * q, 65537
+        d = pow(e, -1, (p - 1) * (q - 1))
+        _PS15.update(n=n, e=e, d=d, k=(n.bit_length() + 7) // 8, pub=RSA.construct((n, e)))
+    return _PS15
+
+
+def ps15_filler(kind, length):
+    if kind == "01":
+        return bytes([1]) * length
+    if kind == "ff":
+        return bytes([255]) * length
+    if kind == "asc":
+        return bytes(1 + (7 * i + 2) % 255 for i in range(length))
+    raise ValueError(kind)
 
 
 def make_target(spec):
@@ -189,6 +288,73 @@ def make_target(spec):
                 return None if r is None else seq[r]
             tg.ref = _ref_wrap(att)
         tg.size = n
+    elif kind == "choice_t":
+        # choice on other sequence types (indexing path): tuple, str, bytes, range
+        _, variant, n, ptype = spec
+        mk = _strong(variant)
+        seq = {"tuple": tuple(10 + 3 * i for i in range(n)), "str": "abcdefghijklmnopqrstuvwxyz"[:n],
+               "bytes": bytes(range(65, 65 + n)), "range": range(5, 5 + 2 * n, 2)}[ptype]
+        tg.fam = "StrongRandom.choice"
+        tg.name = "StrongRandom[%s].choice(%r)" % (variant, seq)
+        tg.run = lambda t: mk(t).choice(seq)
+        tg.domain = list(seq)
+
+        def att(rd):
+            r = T.ref_randrange_attempt(n, rd)
+            return None if r is None else seq[r]
+        tg.ref = _ref_wrap(att)
+        tg.size = n * 8 + 1
+    elif kind == "sample_t":
+        _, variant, n, k, ptype = spec
+        mk = _strong(variant)
+        pop = {"tuple": tuple(range(n)), "str": "abcdefghijklmnopqrstuvwxyz"[:n], "range": range(n)}[ptype]
+        tg.fam = "StrongRandom.sample"
+        tg.name = "StrongRandom[%s].sample(%r, %d)" % (variant, pop, k)
+        tg.run = lambda t: tuple(mk(t).sample(pop, k))
+        tg.domain = list(itertools.permutations(list(pop), k))
+        tg.base_calls = k
+        if variant == "bit":
+            tg.tapecls = BitTape
+        tg.size = n * 8 + k + 1
+    elif kind == "seq":
+        # several calls on ONE StrongRandom object: the outcome tuple must be uniform on the product of the ranges
+        _, variant, ops = spec
+        mk = _strong(variant)
+        doms = []
+        for op in ops:
+            if op[0] == "rr":
+                doms.append(range(op[1]))
+            elif op[0] == "ri":
+                doms.append(range(op[1], op[2] + 1))
+            elif op[0] == "ch":
+                doms.append([10 + 3 * i for i in range(op[1])])
+            elif op[0] == "grb":
+                doms.append(range(1 << op[1]))
+            else:
+                raise ValueError(op)
+        tg.fam = "StrongRandom.call-sequence"
+        tg.name = "one StrongRandom[%s] object: %s" % (variant, ", ".join(
+            {"rr": "randrange(%d)", "ri": "randint(%d, %d)", "ch": "choice(%d items)", "grb": "getrandbits(%d)"}[op[0]] % tuple(op[1:]) for op in ops))
+
+        def run(t):
+            o = mk(t)
+            out = []
+            for op, d in zip(ops, doms):
+                if op[0] == "rr":
+                    out.append(o.randrange(op[1]))
+                elif op[0] == "ri":
+                    out.append(o.randint(op[1], op[2]))
+                elif op[0] == "ch":
+                    out.append(o.choice(d))
+                else:
+                    out.append(o.getrandbits(op[1]))
+            return tuple(out)
+        tg.run = run
+        tg.domain = list(itertools.product(*doms))
+        tg.base_calls = len(ops)
+        if variant == "bit":
+            tg.tapecls = BitTape
+        tg.size = sum(len(d) for d in doms) * 4 + len(ops)
     elif kind == "gri":
         _, N = spec
         from Crypto.Util import number
@@ -253,6 +419,153 @@ def make_target(spec):
         else:
             tg.full_ref = lambda rd: T.ref_sample(n, k, rd)
         tg.size = n * 8 + k
+    elif kind == "mr":
+        # Crypto.Math.Primality.miller_rabin_test: the bases are drawn with Integer.random_range(2, n-2)
+        _, n, k = spec
+        from Crypto.Math import Primality
+        tg.fam = "Primality.miller_rabin_test"
+        tg.name = "Crypto.Math.Primality.miller_rabin_test(%d, %d, randfunc=tape) -> bases drawn" % (n, k)
+        prime = is_prime(n)
+        if not prime and k != 1:
+            raise ValueError("composite candidates only with one iteration (early exit makes the outcome set non-uniform)")
+        tg.notes = notes = []
+        verdicts = {}
+
+        def run(t):
+            with _RangeSpy() as spy:
+                r = Primality.miller_rabin_test(n, k, randfunc=t)
+            bases = tuple(spy.seen)
+            # the verdict is not part of C18: a disagreement with the reference test is logged, never a violation
+            exp = verdicts.get(bases)
+            if exp is None:
+                exp = verdicts[bases] = 1 if prime else min([spp(n, b) for b in bases if 0 < b < n] or [0])
+            if int(r) != exp and not notes:
+                notes.append("Primality.miller_rabin_test(%d, %d) with bases %r returns %r, the reference strong-probable-prime "
+                             "test says %r" % (n, k, bases, int(r), exp))
+            return bases
+        tg.run = run
+        tg.domain = list(itertools.product(range(2, n - 1), repeat=k))
+        per = 1 if (n - 4).bit_length() <= 8 else 2
+        tg.base_calls = k * per
+        if k == 1:
+            def att(rd):
+                c = T.ref_range_attempt(n - 4, rd)
+                return None if c is None else (2 + c,)
+            tg.ref = _ref_wrap(att)
+        else:
+            tg.full_ref = lambda rd: tuple(T.ref_random_range(2, n - 2, rd) for _ in range(k))
+        tg.size = n * 8 + k
+    elif kind == "rmt":
+        # Crypto.Util.number._rabinMillerTest: distinct bases drawn with getRandomRange(2, n)
+        _, n, k = spec
+        from Crypto.Util import number
+        tg.fam = "number._rabinMillerTest"
+        tg.name = "Crypto.Util.number._rabinMillerTest(%d, %d, randfunc=tape) -> distinct bases drawn" % (n, k)
+        rounds = min(k, n - 2)
+        prime = is_prime(n)
+        if not prime and k != 1:
+            raise ValueError("composite candidates only with one round")
+        tg.notes = notes = []
+        verdicts = {}
+
+        def run(t):
+            with _NumberSpy("getRandomRange") as spy:
+                r = number._rabinMillerTest(n, k, t)
+            kept = []                     # the bases that were kept (a repeated base is drawn again by the library)
+            for x in spy.seen:
+                if x[2] not in kept:
+                    kept.append(x[2])
+            kept = tuple(kept)
+            exp = verdicts.get(kept)
+            if exp is None:
+                exp = verdicts[kept] = 1 if prime else min([spp(n, b) for b in kept if 0 < b < n] or [0])
+            if int(r) != exp and not notes:
+                notes.append("number._rabinMillerTest(%d, %d) with bases %r returns %r, the reference strong-probable-prime test "
+                             "says %r" % (n, k, kept, int(r), exp))
+            return kept
+        tg.run = run
+        tg.domain = list(itertools.permutations(range(2, n), rounds))
+        bits = (n - 3).bit_length()
+        per = 0 if bits == 0 else (1 if bits <= 8 else 2)
+        tg.base_calls = rounds * per
+        if k == 1 and bits:
+            def att(rd):
+                v = T.ref_legacy_range_attempt(n - 3, rd)
+                return None if v is None else (2 + v,)
+            tg.ref = _ref_wrap(att)
+        tg.size = n * 8 + k
+    elif kind == "getprime":
+        _, N = spec
+        from Crypto.Util import number
+        tg.fam = "number.getPrime"
+        tg.name = "Crypto.Util.number.getPrime(%d, randfunc=tape)" % N
+        tg.run = lambda t: int(number.getPrime(N, t))
+        # getRandomNBitInteger(N) | 1 is odd: the 2-bit prime 2 cannot be produced (logged as an observation by the driver)
+        tg.domain = [p for p in range((1 << (N - 1)) | 1, 1 << N, 2) if is_prime(p)]
+
+        def att(rd):
+            v = T.ref_legacy_integer(N - 1, rd) | (1 << (N - 1)) | 1
+            return v if is_prime(v) else None
+        tg.ref = _ref_wrap(att)
+        tg.size = N
+    elif kind == "ps15":
+        # PKCS#1 v1.5 encryption: the padding string PS consists of non-zero octets drawn one by one (zero octets are
+        # drawn again).  The octets at positions pos..pos+nfree-1 come from the tape, all others from a fixed filler.
+        _, pos, nfree, mlen, fill = spec
+        from Crypto.Cipher import PKCS1_v1_5
+        K = ps15_key()
+        k, n, d = K["k"], K["n"], K["d"]
+        pslen = k - mlen - 3
+        if not (0 <= pos and pos + nfree <= pslen and pslen >= 8):
+            raise ValueError(spec)
+        filler = ps15_filler(fill, pslen)
+        msg = bytes(0x61 + i for i in range(mlen))
+        tg.fam = "PKCS1_v1_5.padding-octets"
+        tg.name = ("PKCS1_v1_5.new(128-bit key, randfunc=...).encrypt(%d-byte message): padding octet%s %s of %d from the tape, "
+                   "the others fixed (%s)" % (mlen, "s" if nfree > 1 else "", "..".join(map(str, sorted(set((pos, pos + nfree - 1))))), pslen, fill))
+
+        def run(t):
+            st = [0, 0]                               # non-zero octets handed out so far == position in PS; requests
+
+            def rf(nbytes):
+                if nbytes != 1:
+                    return ("unexpected request", nbytes)          # makes the library fail visibly
+                st[1] += 1
+                if st[1] > 8 * pslen + 64:
+                    raise RuntimeError("the padding loop does not terminate on non-zero octets")
+                i = st[0]
+                if pos <= i < pos + nfree:
+                    b = t(1)
+                else:
+                    b = filler[i:i + 1] if i < pslen else b"\xa5"
+                if b != b"\x00":
+                    st[0] = i + 1
+                return b
+            ct = PKCS1_v1_5.new(K["pub"], randfunc=rf).encrypt(msg)
+            em = pow(int.from_bytes(ct, "big"), d, n).to_bytes(k, "big")
+            ps = em[2:2 + pslen]
+            if len(ct) != k or em[:2] != b"\x00\x02" or em[2 + pslen:] != b"\x00" + msg:
+                return ("malformed encryption block", em.hex())
+            if ps[:pos] != filler[:pos] or ps[pos + nfree:] != filler[pos + nfree:]:
+                return ("fixed padding octets changed", em.hex())
+            return ps[pos] if nfree == 1 else tuple(ps[pos:pos + nfree])
+        tg.run = run
+        if nfree == 1:
+            tg.domain = range(1, 256)
+            tg.ref = _ref_wrap(lambda rd: (rd(1)[0] or None))
+        else:
+            tg.domain = list(itertools.product(range(1, 256), repeat=nfree))
+
+            def full(rd):
+                out = []
+                while len(out) < nfree:
+                    b = rd(1)[0]
+                    if b:
+                        out.append(b)
+                return tuple(out)
+            tg.full_ref = full
+        tg.base_calls = nfree
+        tg.size = pos * 8 + nfree + mlen
     else:
         raise ValueError("unknown spec %r" % (spec,))
     tg.variant = spec[1] if isinstance(spec[1], str) else "randfunc"
